@@ -174,6 +174,43 @@ func checkC17(p *Prog, r *Report) {
 		}
 	}
 
+	// ---- NO-WIDENING ----
+	r.Rule("C17/NO-WIDENING", "no production code type-asserts an io.Reader (the session reader or anything wrapping the demultiplexer) to a wider interface (io.ByteReader, io.WriterTo, …): methods other than Read reach bufio's partial-buffer paths, which give up after 100 empty reads and may hand the demultiplexer a buffer smaller than a frame", 0)
+	nTA := 0
+	for _, fn := range p.ModFuncs {
+		pk := pkgPathOfFunc(fn)
+		if isTestSupport(pk) {
+			continue
+		}
+		for _, b := range fn.Blocks {
+			for _, in := range b.Instrs {
+				ta, ok := in.(*ssa.TypeAssert)
+				if !ok {
+					continue
+				}
+				nTA++
+				xi, ok := ta.X.Type().Underlying().(*types.Interface)
+				if !ok || xi.NumMethods() != 1 || xi.Method(0).Name() != "Read" {
+					continue
+				}
+				ai, isIface := ta.AssertedType.Underlying().(*types.Interface)
+				wider := false
+				if isIface {
+					for i := 0; i < ai.NumMethods(); i++ {
+						if ai.Method(i).Name() != "Read" {
+							wider = true
+						}
+					}
+				}
+				if wider {
+					r.Bad("C17/NO-WIDENING", funcKey(fn)+" asserts io.Reader to "+types.TypeString(ta.AssertedType, nil), p.Pos(ta.Pos()), "a reader is widened beyond Read: re-framing (empty/info frames, small frames) can now change the result")
+				}
+			}
+		}
+	}
+	r.OK("C17/NO-WIDENING", "module scanned for reader widening", "-", "")
+	r.Info("C17/NO-WIDENING scanned %d type assertions", nTA)
+
 	// ---- EMIT-BOUNDED ----
 	r.Rule("C17/EMIT-BOUNDED", "in (*MultiplexWriter).WriteMsg every emitted header encodes a payload length bounded by a constant ≤ maxMessageSize (min() with the constant, a slice with a constant bound, or a dominating comparison), and the bytes written after that header are exactly that many", 1)
 	wm := anchorFunc(p, r, pkgWire, "MultiplexWriter", "WriteMsg")
